@@ -63,6 +63,9 @@ type scanEval struct {
 	aborted string
 	// loopBody: the statements interpreted are (part of) a loop body, `continue` ends a path
 	loopBody bool
+	// curEnv: the values of the locals on the path being interpreted (for conditions on them)
+	curEnv   map[string]string
+	envDepth int
 }
 
 // inlineTarget: x is a call of a function or method declared in the same file
@@ -71,6 +74,12 @@ type scanEval struct {
 // Returns the declaration, the name of its byte parameter and the environment
 // binding its other parameters (and receiver) to the argument texts.
 func (e *scanEval) inlineTarget(x ast.Expr, env map[string]string) (*ast.FuncDecl, string, map[string]string) {
+	return e.inlineTargetKind(x, env, true)
+}
+
+// inlineTargetKind: wantResult selects helpers with one result (`return helper(c)`)
+// or without any (`helper(c)` as a statement).
+func (e *scanEval) inlineTargetKind(x ast.Expr, env map[string]string, wantResult bool) (*ast.FuncDecl, string, map[string]string) {
 	call, ok := x.(*ast.CallExpr)
 	if !ok || e.depth > 3 {
 		return nil, "", nil
@@ -95,7 +104,13 @@ func (e *scanEval) inlineTarget(x ast.Expr, env map[string]string) (*ast.FuncDec
 		}
 		args = append(args, f.X)
 	}
-	if fd == nil || fd.Body == nil || fd.Type.Results == nil || len(fd.Type.Results.List) != 1 || len(fd.Type.Results.List[0].Names) > 1 {
+	if fd == nil || fd.Body == nil {
+		return nil, "", nil
+	}
+	if wantResult && (fd.Type.Results == nil || len(fd.Type.Results.List) != 1 || len(fd.Type.Results.List[0].Names) > 1) {
+		return nil, "", nil
+	}
+	if !wantResult && fd.Type.Results != nil && len(fd.Type.Results.List) > 0 {
 		return nil, "", nil
 	}
 	branches := false
@@ -291,6 +306,23 @@ func (e *scanEval) evalInt(x ast.Expr, v int) (int, bool) {
 		if n.Name == e.cName {
 			return v, true
 		}
+		// a local whose value on this path is known: `short := byte(0)` ... `short = 't'`
+		if txt, ok := e.curEnv[n.Name]; ok && e.envDepth < 4 {
+			if x2, err := parser.ParseExpr(txt); err == nil {
+				e.envDepth++
+				r, ok := e.evalInt(x2, v)
+				e.envDepth--
+				return r, ok
+			}
+		}
+	case *ast.CallExpr:
+		// a conversion to an integer type
+		if id, ok := n.Fun.(*ast.Ident); ok && len(n.Args) == 1 {
+			switch id.Name {
+			case "byte", "int", "rune", "uint8", "int32", "uint", "int64":
+				return e.evalInt(n.Args[0], v)
+			}
+		}
 	case *ast.BasicLit:
 		switch n.Kind {
 		case token.CHAR:
@@ -346,6 +378,7 @@ func (e *scanEval) run(stmts []ast.Stmt, set byteSet, key0 string) (fall map[str
 				return fall
 			}
 			tr, env := splitKey(key)
+			e.curEnv = env
 			str := func(n ast.Node) string { return subst(exprString(e.fset, n), env) }
 			with := func(text string) string { return joinKey(tr+" ; "+text, env) }
 			// locals: declarations and assignments update the environment, no effect is recorded
@@ -367,11 +400,38 @@ func (e *scanEval) run(stmts []ast.Stmt, set byteSet, key0 string) (fall map[str
 			}
 			if as, ok := st.(*ast.AssignStmt); ok && len(as.Lhs) == 1 && len(as.Rhs) == 1 && (as.Tok == token.ASSIGN || as.Tok == token.DEFINE) {
 				if id, ok := as.Lhs[0].(*ast.Ident); ok && id.Name != e.cName {
-					if _, known := env[id.Name]; known {
+					if _, known := env[id.Name]; known || as.Tok == token.DEFINE {
 						env[id.Name] = str(as.Rhs[0])
 						add(next, joinKey(tr, env), s)
 						continue
 					}
+				}
+			}
+			// `e.helper(c)` as a statement: a branching helper of the same file without a
+			// result is interpreted in place; its returns continue after the call
+			if es, ok := st.(*ast.ExprStmt); ok {
+				if fd, cParam, henv := e.inlineTargetKind(es.X, env, false); fd != nil {
+					sub := &scanEval{fset: e.fset, cName: cParam, funcs: e.funcs, limit: e.limit, depth: e.depth + 1}
+					hfall := sub.run(fd.Body.List, s, joinKey("", henv))
+					e.limit = sub.limit
+					if sub.aborted != "" {
+						e.aborted = sub.aborted
+					}
+					for k, fs := range hfall {
+						ht, _ := splitKey(k)
+						add(next, joinKey(tr+ht, env), fs)
+					}
+					for v := range s {
+						if !s[v] {
+							continue
+						}
+						for _, o := range sub.out[v] {
+							var one byteSet
+							one[v] = true
+							add(next, joinKey(tr+strings.TrimSuffix(o, " ; return "), env), one)
+						}
+					}
+					continue
 				}
 			}
 			switch n := st.(type) {
